@@ -21,7 +21,8 @@ import t1
 import vlib
 from emit import Q2
 
-PROPS = ["TfelVerif.C25.Props"]
+PROPS = ["TfelVerif.C25.PropsGen", "TfelVerif.C25.Props"]
+PROPS_HEAVY = ["TfelVerif.C25.PropsHeavy"]
 EXC = ["/src/Exception/ContractViolation.cxx", "/src/Exception/TFELException.cxx",
        "/src/Math/LUException.cxx", "/src/Math/MathException.cxx"]
 # units that go to Lean with one shared let-chain (heavy cones shared by all outputs)
@@ -378,18 +379,19 @@ def run_tracers(ck, bins, shadow=None):
     return txt
 
 
-def emit_shared(units, namespace, out):
-    """own emitter for heavy units: ONE let-chain per unit returning the list of all outputs"""
+def emit_units(units, namespace, out, with_paths=True):
+    """own emitter (instead of emit.py's one definition per output, whose size is outputs x cone): ONE
+    let-chain per unit, `U_all : List K` (all outputs, in the tracer's order) and, when the trace took
+    value-dependent branches, `U_path : Prop` (the recorded outcomes). Node rendering is emit.py's."""
+    sym = {"lt": "<", "le": "≤", "gt": ">", "ge": "≥", "eq": "=", "ne": "≠"}
     with open(out, "w") as o:
-        o.write("-- GENERATED by checks/C25.py (shared let-chain form) from /repo's current sources. Do not edit.\n")
-        o.write("import TfelVerif.Common.Sym\nset_option maxRecDepth 100000\nset_option linter.unusedVariables false\n")
+        o.write("-- GENERATED by checks/C25.py from /repo's current sources (symtrace DAG). Do not edit.\n")
+        o.write("import TfelVerif.Common.Sym\nimport Mathlib.Order.Defs.LinearOrder\n")
+        o.write("set_option maxRecDepth 100000\nset_option linter.unusedVariables false\n")
         o.write("namespace %s\nopen TfelVerif\n\n" % namespace)
         for u in units:
             ins = [emit.lean_ident(x) for x in u.inputs]
             binder = "(c c3 : K) (fn : Fns K)" + (" (%s : K)" % " ".join(ins) if ins else "")
-            need = set()
-            for _, root in u.outs:
-                need |= u.cone(root)
 
             def ref(j, u=u):
                 o_, p = u.nodes[j]
@@ -400,11 +402,32 @@ def emit_shared(units, namespace, out):
                 if o_ == "lit":
                     return emit.lean_rat(p.numerator, p.denominator)
                 return "n%d" % j
-            o.write("def %s_all {K : Type} [Field K] %s : List K :=\n" % (emit.lean_ident(u.name), binder))
-            for j in u.order:
-                if j in need and u.nodes[j][0] not in ("in", "const", "lit"):
-                    o.write("  let n%d := %s\n" % (j, emit.node_expr(u, j, ref)))
+
+            def chain(need):
+                for j in u.order:
+                    if j in need and u.nodes[j][0] not in ("in", "const", "lit"):
+                        o.write("  let n%d := %s\n" % (j, emit.node_expr(u, j, ref)))
+            need = set()
+            for _, root in u.outs:
+                need |= u.cone(root)
+            o.write("noncomputable def %s_all {K : Type} [Field K] %s : List K :=\n" % (emit.lean_ident(u.name), binder))
+            chain(need)
             o.write("  [%s]\n\n" % ", ".join(ref(r) for _, r in u.outs))
+            if u.paths and with_paths:
+                need = set()
+                for (_, a, b, _) in u.paths:
+                    need |= u.cone(a) | u.cone(b)
+                o.write("/-- branch outcomes under which the trace of `%s` was taken -/\n" % u.name)
+                o.write("def %s_path {K : Type} [Field K] [LinearOrder K] %s : Prop :=\n" % (emit.lean_ident(u.name), binder))
+                chain(need)
+                conj = []
+                for (cmp_, a, b, r) in u.paths:
+                    e = "(%s : K) %s %s" % (ref(a), sym[cmp_], ref(b))
+                    if not r:
+                        e = "¬ (%s)" % e
+                    if e not in conj:
+                        conj.append(e)
+                o.write("  " + " ∧ ".join(conj) + "\n\n")
         o.write("end %s\n" % namespace)
 
 
@@ -417,12 +440,14 @@ def run(ck):
     byname = {u.name: u for u in units}
     blocks = split_dag(base)
     lean_units = [u.name for u in units if not u.name.startswith(XONLY_PREFIX) and u.name not in SHARED]
-    dag = ck.write("lean.dag", "".join(blocks[n] for n in lean_units))
-    ck.emit([dag], "TfelVerif.C25.Gen", "TfelVerif/C25/Gen.lean")
-    tmp = ck.path("GenShared.lean")
-    emit_shared([byname[n] for n in SHARED], "TfelVerif.C25.GenShared", tmp)
-    ck.write_gen("TfelVerif/C25/GenShared.lean", open(tmp).read())
-    res = ck.lean(PROPS, PROPS)
+    tmp = ck.path("Gen.lean")
+    emit_units([byname[n] for n in lean_units], "TfelVerif.C25.Gen", tmp)
+    ck.write_gen("TfelVerif/C25/Gen.lean", open(tmp).read())
+    tmp = ck.path("GenHeavy.lean")
+    emit_units([byname[n] for n in SHARED], "TfelVerif.C25.GenHeavy", tmp, with_paths=False)
+    ck.write_gen("TfelVerif/C25/GenHeavy.lean", open(tmp).read())
+    props = PROPS + ([] if ck.quick else PROPS_HEAVY)
+    res = ck.lean(props, props)
 
     # ---- exact evaluation at seeded random rational points, re-tracing so that the path is the real one
     rng = random.Random(ck.seed)
